@@ -1,4 +1,5 @@
 import OFCore.RuleSys
+import OFCore.Group
 /-!
 # Vocabulary of C11: selections, restriction of a declaration to a part, permutation (import-free)
 
@@ -103,6 +104,51 @@ def WF (d : Decl) : Prop :=
   (∀ i ∈ d.inputs, ∀ vv ∈ d.vars[i.1]?, i.2.2.length = d.size vv.entity)
 
 instance (d : Decl) : Decidable (WF d) := by unfold WF; infer_instance
+
+/-! ## The tie between the two models of the group operations
+
+`RuleSys.f1` states the group operations of the expression language over index sets; `Group.lean`
+transcribes the code of `GroupPopulation` (bincount, position loop, masks) and is tied to the real
+code by C10's correspondence.  `declPop` is the population of a declaration as `GroupPopulation`
+holds it; `C11_group_ops_are_the_group_model` says the two agree. -/
+
+/-- the population of a declaration as `GroupPopulation` holds it: one `(group, role)` per person -/
+def declPop (d : Decl) : Grp.Pop :=
+  ⟨d.nG, (List.range d.mem.length).map fun i => ⟨d.mem.getD i 0, d.roles.getD i 0⟩⟩
+
+/-- the `role` argument a role digit of the expression language stands for: 9 = no role,
+    8 = the first role with its two sub-roles, otherwise the flattened role of that index -/
+def roleOfDigit (r : Nat) : Option Grp.Role :=
+  if r = 9 then none else if r = 8 then some ⟨1000000, [0, 1], some 2⟩ else some ⟨r, [], some 1⟩
+
+/-- `±inf` (a group without holder) read as 0: `numpy.where(nb_persons > 0, reduction, 0)` -/
+def eint0 : Grp.EInt → Int
+  | .fin v => v
+  | .negInf => 0
+  | .posInf => 0
+
+/-! ## Parts of a group population (the order-dependent operations)
+
+`value_nth_person`, `value_from_first_person` and `get_rank` are defined by the storage order of
+the persons: they are outside the expression language and outside the permutation clause, but the
+MERGE clause covers them — a situation keeps its internal person order inside a merged population.
+`restrictPop p sel gsel` is the part made of the persons `sel` (increasing: merged order) and the
+groups `gsel`, as a population of its own. -/
+
+/-- the part of a group population, simulated alone -/
+def restrictPop (p : Grp.Pop) (sel gsel : List Nat) : Grp.Pop :=
+  ⟨gsel.length, sel.map fun i => ⟨posIn gsel (p.ms.getD i default).group, (p.ms.getD i default).role⟩⟩
+
+/-- closed, person-order-preserving selection of a group population -/
+def ClosedPop (p : Grp.Pop) (sel gsel : List Nat) : Prop :=
+  (∀ i ∈ sel, i < p.ms.length) ∧ (∀ g ∈ gsel, g < p.n) ∧ sel.Pairwise (· < ·) ∧ gsel.Nodup ∧
+  ∀ i, i < p.ms.length → (i ∈ sel ↔ (p.ms.getD i default).group ∈ gsel)
+
+instance (p : Grp.Pop) (sel gsel : List Nat) : Decidable (ClosedPop p sel gsel) := by
+  unfold ClosedPop; infer_instance
+
+/-- a person-level array read at the persons of the part -/
+def selArr {α} (l : List Nat) (a : List α) (d : α) : List α := l.map fun i => a.getD i d
 
 /-- the complement of a selection, in population order -/
 def complement (n : Nat) (l : List Nat) : List Nat := (List.range n).filter (fun i => !l.contains i)
